@@ -10,8 +10,10 @@ import (
 	"strings"
 	"testing"
 
+	"github.com/ohler55/slip"
 	"pgregory.net/rapid"
 
+	"verif/harness/internal/ev"
 	"verif/harness/internal/h"
 )
 
@@ -84,5 +86,25 @@ func TestSurvey(t *testing.T) {
 			ex = ex[:limit] + "..."
 		}
 		fmt.Printf("        e.g. %s\n", strings.ReplaceAll(ex, "\n", "\n        "))
+	}
+}
+
+// TestEvalDebug is a development aid: C19_EVAL holds forms (one per line) that are evaluated in one scope; faults are
+// printed with their Go stack.
+func TestEvalDebug(t *testing.T) {
+	src := os.Getenv("C19_EVAL")
+	if src == "" {
+		t.Skip()
+	}
+	scope := slip.NewScope()
+	for _, line := range strings.Split(src, "\n") {
+		if strings.TrimSpace(line) == "" {
+			continue
+		}
+		o := ev.Eval(scope, line)
+		fmt.Printf("%s\n  => %s\n", line, o)
+		if o.Kind == ev.Fault {
+			fmt.Println(o.Stack)
+		}
 	}
 }
